@@ -18,6 +18,7 @@ LINES = ["stylua: ignore", "stylua: ignore start", "stylua: ignore end", "stylua
 # candidates are *trimmed* lines; entry 3 (trailing blank) cannot survive trim and is excluded from the domain
 DOMAIN = [i for i, l in enumerate(LINES) if l == l.strip()]
 K_TOKENS, K_LINES = 2, 2
+VISITS = 8
 
 
 class Model:
@@ -202,7 +203,7 @@ def analyse_should_format_node(M, ses, rep):
                 return Sym(z3.BitVec("bytes_" + p.tags["pos"], 64), "usize")
         return NotImplemented
     ex.hooks = [hook] + ex.hooks
-    ex.max_block_visits = 8
+    ex.max_block_visits = VISITS
     outs = ex.run(fn, [RefV(ctx), RefV(node)])
     T = ex.enums
     ci = {n: T.field_index("Context", n) for n in ("config", "range", "formatting_disabled")}
@@ -289,7 +290,7 @@ def analyse_toggle(M, ses, rep):
                 return [(z3.Int("tlines") > j, opt_some(dty, RefV(line))), (z3.Int("tlines") <= j, opt_none(dty))]
         return NotImplemented
     ex.hooks = [hook] + ex.hooks
-    ex.max_block_visits = 8
+    ex.max_block_visits = VISITS
     outs = ex.run(fn, [RefV(ctx), RefV(node)])
     T = ex.enums
     fi = T.field_index("Context", "formatting_disabled")
